@@ -9,7 +9,13 @@
  *                                  reachable (shadow graph) ⊆ survivors.
  *   new <id> <kind>[!] <arg> <where>   kind P(arg=1|2|4|8 slots) M(probe with its own Mark instance, 4 slots) R B(arg=target id)
  *                                  A L (Array/List of Ref) T U (Table Int->Ref / Ref->Ref) E F (Tree Int->Ref / Ref->Ref) H (heap Tuple);
+ *                                  for A L arg may be an element type R|I|S|F (Ref, Int, String, Float), for T U E F a key type R|I|S
+ *                                  followed by a value type R|I|S|F (`new 3 T SI -` = Table(String, Int)): containers of leaf types;
  *                                  `!` = root-registered (new_root/alloc_root); where = `-` or `s<j>` (stack root slot j)
+ *   assign <dst> <src>             assign(dst, src): A|L from A|L|H, T|E from T|E, H from H — the target takes over the source's
+ *                                  element / key / value types (X_Assign re-types it) and copies of its elements
+ *   copy <id> <src> <where>        id = copy(src) for src of kind A L T E H
+ *   clear <id>                     resize(id, 0) for A L T E           trunc <id> <n>   resize(id, n): A L shrink to n, T rehash
  *   pair <ida> <idb> <where>       two Refs allocated back to back, b -> a; a lives only in a C local while b is allocated
  *   store <id> <slot> <tok>        word store into P/M/R.  tok: o<id> pointer | n NULL | m<id> pointer+4 | i<id> pointer+8 | lo | hi | s<k> small integer
  *   push <id> <tok> | pop <id> <idx> | aset <id> <idx> <tok>      A L H   (tok: o<id>, for A/L also n)
@@ -23,6 +29,8 @@
  *   churn <n>                      full: allocate n unreferenced objects (drives the threshold)
  *   deepchild <n> <kind>           forked child: chain of n, forced collection; records the outcome (F27 witness)
  *   danglechild H|M                forked child: del(x) while a heap Tuple / user Mark instance holds x, then mark it (known finding)
+ *   aliaschild A|L                 forked child: assign(tuple, Array|List of Ref) — the Tuple stores pointers INTO the source's element
+ *                                  storage —, the source grows (A: realloc) / is cleared (L), then the Tuple is marked (known finding)
  *
  * Direct oracle (independent of the Lean model): shadow graph + BFS; a probe finalised while shadow-reachable, a
  * reachable object missing from the registry, or a changed canary/content is an X line.
@@ -38,7 +46,8 @@
 #define NTLS 64
 #define MASK 0x5a5a5a5a5a5a5a5aULL
 
-enum { K_NONE = 0, K_P, K_M, K_R, K_B, K_A, K_L, K_T, K_U, K_E, K_F, K_H };
+enum { K_NONE = 0, K_P, K_M, K_R, K_B, K_A, K_L, K_T, K_E, K_H };   /* letters U / F: T / E with Ref keys */
+enum { E_R = 0, E_I, E_S, E_F };                                       /* element / key / value types: Ref, Int, String, Float */
 enum { T_NIL = 0, T_OBJ, T_MIS, T_INT, T_LO, T_HI, T_SMALL };
 typedef struct { int t; long v; } Tok;
 
@@ -48,7 +57,8 @@ typedef struct {
   int owner;              /* id+1 of the Box that owns this object (0 = none) */
   int n, cap;             /* container length */
   Tok* el;                /* slots (P/M/R/B) or elements/values (containers) */
-  long* key;              /* T/E integer keys, U/F key object ids */
+  long* key;              /* map keys: integers (Int / String keys) or object ids (Ref keys) */
+  int kt, vt;             /* CURRENT key type (T/E) and element / value type (A/L/T/E): redefined by assign */
 } Sh;
 
 static Sh* sh;                       /* shadow graph */
@@ -146,8 +156,20 @@ static void sh_grow(Sh* o) {
 }
 static int is_words(int kind) { return kind == K_P || kind == K_M || kind == K_R || kind == K_B; }
 static int is_seq(int kind) { return kind == K_A || kind == K_L || kind == K_H; }
-static int is_intmap(int kind) { return kind == K_T || kind == K_E; }
-static int is_refmap(int kind) { return kind == K_U || kind == K_F; }
+static int is_arr(int kind) { return kind == K_A || kind == K_L; }
+static int is_map(int kind) { return kind == K_T || kind == K_E; }
+static int refkeys(Sh* o) { return is_map(o->kind) && o->kt == E_R; }
+/* does element slot i of o hold a reference?  (an Int that equals an address, a String, a Float do not) */
+static int refvals(Sh* o) { return (is_arr(o->kind) || is_map(o->kind)) ? o->vt == E_R : 1; }
+static var ety_type(int e) { return e == E_I ? Int : e == E_S ? String : e == E_F ? Float : Ref; }
+static int parse_ety(char c) { return c == 'R' ? E_R : c == 'I' ? E_I : c == 'S' ? E_S : c == 'F' ? E_F : -1; }
+static const char* tok_text(Tok t) { static char b[32]; if (t.t == T_OBJ) snprintf(b, sizeof b, "o%ld", t.v); else snprintf(b, sizeof b, "n"); return b; }
+static const char* key_text(long k) { static char b[32]; snprintf(b, sizeof b, "k%ld", k); return b; }
+static var tok_word(Tok t);
+/* a value of element type `ety` made from a token / a key of key type `kt` (compound literals: valid in the enclosing block) */
+#define ELEM(ety, t) ((ety) == E_I ? (var)$I((int64_t)(uintptr_t)tok_word(t)) : (ety) == E_S ? (var)$S((char*)tok_text(t)) \
+                      : (ety) == E_F ? (var)$F((double)(t).v) : (var)$R(tok_word(t)))
+#define KEY(o, k) ((o)->kt == E_I ? (var)$I(k) : (o)->kt == E_S ? (var)$S((char*)key_text(k)) : (var)$R(P(k)))
 
 /* ---------------------------------------------------------------- shadow BFS (the direct oracle's reference) */
 static int* bfs_q;
@@ -163,9 +185,10 @@ static size_t shadow_reach(Tok* words, int nwords, int use_slots) {
   for (int i = 0; i < nwords; i++) bfs_tok(words[i], &qt);
   while (qh < qt) {
     Sh* o = &sh[bfs_q[qh++]];
+    int rv = refvals(o), rk = refkeys(o);   /* the CURRENT types decide what is a reference */
     for (int i = 0; i < o->n; i++) {
-      bfs_tok(o->el[i], &qt);
-      if (is_refmap(o->kind)) bfs_push((int)o->key[i], &qt);
+      if (rv) bfs_tok(o->el[i], &qt);
+      if (rk) bfs_push((int)o->key[i], &qt);
     }
   }
   return qt;
@@ -200,25 +223,33 @@ static var word_load(int id, int slot) {
   return ((struct ProbeHead*)P(id))->slot[slot];
 }
 
-static var make_real(int kind, int k, int rootflag, long id) {
+static var make_real(int kind, int k, int rootflag, long id, int kt, int vt) {
   var p = NULL;
   switch (kind) {
     case K_P: p = rootflag ? alloc_root(probe_type(k)) : alloc(probe_type(k)); break;
     case K_M: p = rootflag ? alloc_root(ProbeM) : alloc(ProbeM); break;
     case K_R: p = rootflag ? alloc_root(Ref) : alloc(Ref); break;
     case K_B: p = rootflag ? alloc_root(Box) : alloc(Box); break;
-    case K_A: p = rootflag ? new_root(Array, Ref) : new(Array, Ref); break;
-    case K_L: p = rootflag ? new_root(List, Ref) : new(List, Ref); break;
-    case K_T: p = rootflag ? new_root(Table, Int, Ref) : new(Table, Int, Ref); break;
-    case K_U: p = rootflag ? new_root(Table, Ref, Ref) : new(Table, Ref, Ref); break;
-    case K_E: p = rootflag ? new_root(Tree, Int, Ref) : new(Tree, Int, Ref); break;
-    case K_F: p = rootflag ? new_root(Tree, Ref, Ref) : new(Tree, Ref, Ref); break;
+    case K_A: p = rootflag ? new_root(Array, ety_type(vt)) : new(Array, ety_type(vt)); break;
+    case K_L: p = rootflag ? new_root(List, ety_type(vt)) : new(List, ety_type(vt)); break;
+    case K_T: p = rootflag ? new_root(Table, ety_type(kt), ety_type(vt)) : new(Table, ety_type(kt), ety_type(vt)); break;
+    case K_E: p = rootflag ? new_root(Tree, ety_type(kt), ety_type(vt)) : new(Tree, ety_type(kt), ety_type(vt)); break;
     case K_H: p = rootflag ? new_root(Tuple) : new(Tuple); break;
   }
   if (kind == K_P || kind == K_M) { struct ProbeHead* h = p; h->id = id; h->canary = canary_of(id); }
   return p;
 }
 
+/* the embedded element e (of type ety) holds the value made from token t */
+static int elem_is(var e, int ety, Tok t) {
+  if (type_of(e) != ety_type(ety)) return 0;
+  switch (ety) {
+    case E_I: return c_int(e) == (int64_t)(uintptr_t)tok_word(t);
+    case E_S: return !strcmp(c_str(e), tok_text(t));
+    case E_F: return c_float(e) == (double)t.v;
+    default: return deref(e) == tok_word(t);
+  }
+}
 /* content of a usable object equals the shadow (reads the object: ASan faults on freed memory) */
 static int content_ok(int id) {
   Sh* o = &sh[id]; var p = P(id);
@@ -234,14 +265,16 @@ static int content_ok(int id) {
   }
   if (is_seq(o->kind)) {
     if ((int)len(p) != o->n) return 0;
-    for (int i = 0; i < o->n; i++) if (deref(get(p, $I(i))) != tok_word(o->el[i])) return 0;
+    if (type_of(p) != (o->kind == K_A ? Array : List) || iter_type(p) != ety_type(o->vt)) return 0;
+    for (int i = 0; i < o->n; i++) if (!elem_is(get(p, $I(i)), o->vt, o->el[i])) return 0;
     return 1;
   }
   if ((int)len(p) != o->n) return 0;
+  if (key_type(p) != ety_type(o->kt) || val_type(p) != ety_type(o->vt)) return 0;
   for (int i = 0; i < o->n; i++) {
-    var key = is_intmap(o->kind) ? (var)$I(o->key[i]) : (var)$R(P(o->key[i]));
+    var key = KEY(o, o->key[i]);
     if (!mem(p, key)) return 0;
-    if (deref(get(p, key)) != tok_word(o->el[i])) return 0;
+    if (!elem_is(get(p, key), o->vt, o->el[i])) return 0;
   }
   return 1;
 }
@@ -258,12 +291,24 @@ static void oracle_survivors(const char* when) {
 }
 
 /* ---------------------------------------------------------------- ops */
-static int kind_of(const char* s, int* rootflag) {
+/* kind letter -> kind and its default key / value types */
+static int kind_letter(char c, int* kt, int* vt) {
+  *kt = E_R; *vt = E_R;
+  switch (c) { case 'P': return K_P; case 'M': return K_M; case 'R': return K_R; case 'B': return K_B; case 'A': return K_A; case 'L': return K_L;
+    case 'T': *kt = E_I; return K_T; case 'U': return K_T; case 'E': *kt = E_I; return K_E; case 'F': return K_E; case 'H': return K_H; }
+  return K_NONE;
+}
+static int kind_of(const char* s, int* rootflag, int* kt, int* vt) {
   size_t l = strlen(s); *rootflag = 0;
   if (l == 2 && s[1] == '!') *rootflag = 1; else if (l != 1) return K_NONE;
-  switch (s[0]) { case 'P': return K_P; case 'M': return K_M; case 'R': return K_R; case 'B': return K_B; case 'A': return K_A; case 'L': return K_L;
-    case 'T': return K_T; case 'U': return K_U; case 'E': return K_E; case 'F': return K_F; case 'H': return K_H; }
-  return K_NONE;
+  return kind_letter(s[0], kt, vt);
+}
+/* type argument of `new` for a container: `-`, one letter (A/L) or key letter + value letter (T/U/E/F) */
+static int parse_types(int kind, const char* arg, int* kt, int* vt) {
+  if (!strcmp(arg, "-")) return 1;
+  if (is_arr(kind) && strlen(arg) == 1) { int v = parse_ety(arg[0]); if (v < 0) return 0; *vt = v; return 1; }
+  if (is_map(kind) && strlen(arg) == 2) { int k = parse_ety(arg[0]), v = parse_ety(arg[1]); if (k < 0 || v < 0 || k == E_F) return 0; *kt = k; *vt = v; return 1; }
+  return 0;
 }
 static int parse_where(const char* s, int* slot) {
   if (!strcmp(s, "-")) { *slot = -1; return 1; }
@@ -271,9 +316,9 @@ static int parse_where(const char* s, int* slot) {
   return 0;
 }
 
-static void shadow_new(long id, int kind, int k, int rootflag) {
+static void shadow_new(long id, int kind, int k, int rootflag, int kt, int vt) {
   Sh* o = &sh[id]; memset(o, 0, sizeof *o);
-  o->kind = kind; o->used = 1; o->alive = 1; o->rootflag = rootflag;
+  o->kind = kind; o->used = 1; o->alive = 1; o->rootflag = rootflag; o->kt = kt; o->vt = vt;
   if (id > maxid) maxid = (int)id;
   if (is_words(kind)) { o->k = k; o->n = k; o->cap = k; o->el = calloc(k ? k : 1, sizeof(Tok)); o->key = NULL; }
   n_objs++;
@@ -294,14 +339,21 @@ static void checkpoint_dead(void) {
   for (int i = 0; i <= maxid; i++) if (sh[i].used && sh[i].alive && !reach[i]) { sh[i].alive = 0; note_garbage(i); }
 }
 
-static __attribute__((noinline)) void do_new(long id, int kind, int k, int rootflag, long boxtgt, int slot) {
+static void shadow_copy_content(Sh* d, Sh* s) {
+  if (d->cap < s->n) { d->cap = s->n; d->el = realloc(d->el, d->cap * sizeof(Tok)); d->key = realloc(d->key, d->cap * sizeof(long)); }
+  d->n = s->n;
+  for (int i = 0; i < s->n; i++) { d->el[i] = s->el[i]; if (is_map(s->kind)) d->key[i] = s->key[i]; }
+}
+/* copyfrom >= 0: the new object is copy(copyfrom) (= assign(alloc(type), src)) */
+static __attribute__((noinline)) void do_new_x(long id, int kind, int k, int rootflag, long boxtgt, int slot, int kt, int vt, long copyfrom) {
   struct GC* gc = G();
   size_t mit0 = gc->mitems, nit0 = gc->nitems;
   if (mode_full) shadow_reach(NULL, 0, 1);   /* what a collection inside alloc may not touch */
-  var p = make_real(kind, k, rootflag, id);
+  var p = copyfrom >= 0 ? copy(P(copyfrom)) : make_real(kind, k, rootflag, id, kt, vt);
   if (slot >= 0) g_roots[slot] = p;
   setP((int)id, p);
-  shadow_new(id, kind, k, rootflag);
+  shadow_new(id, kind, k, rootflag, kt, vt);
+  if (copyfrom >= 0) shadow_copy_content(&sh[id], &sh[copyfrom]);
   if (kind == K_B) { sh[id].el[0].t = T_OBJ; sh[id].el[0].v = boxtgt; ((struct Box*)p)->val = P(boxtgt); sh[boxtgt].owner = (int)id + 1; }
   if (slot >= 0) { root_tok[slot].t = T_OBJ; root_tok[slot].v = id; }
   pin();
@@ -310,6 +362,7 @@ static __attribute__((noinline)) void do_new(long id, int kind, int k, int rootf
     checkpoint_dead();
   }
 }
+static void do_new(long id, int kind, int k, int rootflag, long boxtgt, int slot, int kt, int vt) { do_new_x(id, kind, k, rootflag, boxtgt, slot, kt, vt, -1); }
 
 /* two allocations in one C function: the first object lives only in a local variable (a register or a spill slot) while
    the second allocation may trigger a collection — the "stack or registers" root kind */
@@ -323,7 +376,7 @@ static __attribute__((noinline)) void do_pair(long ia, long ib, int slot) {
   ((struct Ref*)b)->val = a;
   if (slot >= 0) g_roots[slot] = b;
   setP((int)ia, a); setP((int)ib, b);
-  shadow_new(ia, K_R, 1, 0); shadow_new(ib, K_R, 1, 0);
+  shadow_new(ia, K_R, 1, 0, E_R, E_R); shadow_new(ib, K_R, 1, 0, E_R, E_R);
   sh[ib].el[0].t = T_OBJ; sh[ib].el[0].v = ia;
   if (slot >= 0) { root_tok[slot].t = T_OBJ; root_tok[slot].v = ib; }
   pin();
@@ -337,7 +390,7 @@ static __attribute__((noinline)) void do_pair(long ia, long ib, int slot) {
 
 static __attribute__((noinline)) void seq_push(int id, Tok t) {
   Sh* o = &sh[id]; var p = P(id);
-  if (o->kind == K_H) push(p, tok_word(t)); else push(p, $R(tok_word(t)));
+  if (o->kind == K_H) push(p, tok_word(t)); else push(p, ELEM(o->vt, t));
   sh_grow(o); o->el[o->n++] = t;
 }
 static __attribute__((noinline)) void seq_pop(int id, int idx) {
@@ -347,13 +400,14 @@ static __attribute__((noinline)) void seq_pop(int id, int idx) {
 }
 static __attribute__((noinline)) void seq_set(int id, int idx, Tok t) {
   Sh* o = &sh[id]; var p = P(id);
-  if (o->kind == K_H) set(p, $I(idx), tok_word(t)); else set(p, $I(idx), $R(tok_word(t)));
+  if (o->kind == K_H) set(p, $I(idx), tok_word(t)); else set(p, $I(idx), ELEM(o->vt, t));
   o->el[idx] = t;
 }
+static __attribute__((noinline)) void do_assign(int d, int s) { assign(P(d), P(s)); }
 static int map_find(Sh* o, long key) { for (int i = 0; i < o->n; i++) if (o->key[i] == key) return i; return -1; }
 static __attribute__((noinline)) void map_set(int id, long key, Tok t) {
   Sh* o = &sh[id]; var p = P(id);
-  if (is_intmap(o->kind)) set(p, $I(key), $R(tok_word(t))); else set(p, $R(P(key)), $R(tok_word(t)));
+  set(p, KEY(o, key), ELEM(o->vt, t));
   int i = map_find(o, key);
   if (i < 0) { sh_grow(o); i = o->n++; o->key[i] = key; }
   o->el[i] = t;
@@ -361,7 +415,7 @@ static __attribute__((noinline)) void map_set(int id, long key, Tok t) {
 static __attribute__((noinline)) void map_rem(int id, long key) {
   Sh* o = &sh[id]; var p = P(id);
   int i = map_find(o, key);
-  if (is_intmap(o->kind)) rem(p, $I(key)); else rem(p, $R(P(key)));
+  rem(p, KEY(o, key));
   o->el[i] = o->el[o->n - 1]; o->key[i] = o->key[o->n - 1]; o->n--;
 }
 
@@ -371,7 +425,7 @@ static int has_incoming_x(int id, int except_slot) {
     Sh* o = &sh[i]; if (!o->used || !o->alive || i == id) continue;
     for (int j = 0; j < o->n; j++) {
       if (o->el[j].t == T_OBJ && o->el[j].v == id) return 1;
-      if (is_refmap(o->kind) && o->key[j] == id) return 1;
+      if (refkeys(o) && o->key[j] == id) return 1;
     }
   }
   for (int i = 0; i < NROOTS; i++) if (i != except_slot && root_tok[i].t == T_OBJ && root_tok[i].v == id) return 1;
@@ -461,19 +515,19 @@ static __attribute__((noinline)) void do_collect(void) {
 }
 
 /* chain of n objects id..id+n-1 (all of one kind), each pointing to the next */
-static int chain_kind(const char* s) { return !strcmp(s, "R") ? K_R : !strcmp(s, "P") ? K_P : !strcmp(s, "A") ? K_A : !strcmp(s, "H") ? K_H : !strcmp(s, "U") ? K_U : !strcmp(s, "L") ? K_L : !strcmp(s, "E") ? K_E : K_NONE; }
+static int chain_kind(const char* s, int* kt, int* vt) { return (strlen(s) == 1 && strchr("RPAHULE", s[0])) ? kind_letter(s[0], kt, vt) : K_NONE; }
 static void link_to(int a, int b) {   /* a -> b through a's representation */
   Tok t = { T_OBJ, b };
   Sh* o = &sh[a];
   if (is_words(o->kind)) { word_store(a, 0, P(b)); o->el[0] = t; }
   else if (is_seq(o->kind)) seq_push(a, t);
-  else if (is_intmap(o->kind)) map_set(a, 7, t);
-  else map_set(a, b, t);
+  else if (refkeys(o)) map_set(a, b, t);
+  else map_set(a, 7, t);
 }
-static __attribute__((noinline)) void do_chain(long id, long n, int kind, int slot) {
+static __attribute__((noinline)) void do_chain(long id, long n, int kind, int slot, int kt, int vt) {
   /* built back to front so that, in full mode, every object is rooted as soon as it exists (through slot `slot`) */
   for (long i = n - 1; i >= 0; i--) {
-    do_new(id + i, kind, 1, 0, -1, slot < 0 ? -1 : slot + (int)(i & 1));
+    do_new(id + i, kind, 1, 0, -1, slot < 0 ? -1 : slot + (int)(i & 1), kt, vt);
     if (i < n - 1) link_to((int)(id + i), (int)(id + i + 1));
   }
 }
@@ -536,6 +590,35 @@ static void dangle_child(int kind) {
   }
 }
 
+/* known finding KF-C01-tuple-aliases-elements, in a forked child: Tuple_Assign(t, array) stores get(array, i), i.e. pointers to the
+   elements embedded in the source's storage; once that storage is reallocated or freed the Tuple dangles and the marker reads freed memory */
+static void alias_child(int kind) {
+  fflush(stdout);
+  pid_t pid = fork();
+  if (pid == 0) {
+    alarm(30);
+    exiting = 1;
+    int devnull = open("/dev/null", 1); if (devnull >= 0) dup2(devnull, 2);
+    struct GC* gc = G(); gc->mitems = ((size_t)1) << 60;
+    var x = alloc(Ref);
+    var src = kind == K_A ? new(Array, Ref, $R(x)) : new(List, Ref, $R(x));
+    var t = new(Tuple);
+    gc->mitems = ((size_t)1) << 60;
+    assign(t, src);
+    if (kind == K_A) { for (int i = 0; i < 64; i++) push(src, $R(NULL)); } else resize(src, 0);
+    gc->mitems = ((size_t)1) << 60;
+    GC_Mark_Item(gc, t);            /* what the stack scan / any holder of t does at the next collection */
+    _exit(0);
+  }
+  int st = 0; waitpid(pid, &st, 0);
+  if (WIFEXITED(st) && WEXITSTATUS(st) == 0) I("alias outcome=ok");
+  else {
+    I("alias outcome=%s%d", WIFSIGNALED(st) ? "signal" : "exit", WIFSIGNALED(st) ? WTERMSIG(st) : WEXITSTATUS(st));
+    X("sig=gc-tuple-aliases-elements line=%zu what=marking a heap Tuple that was assigned from %s whose element storage has since been %s read freed memory (%s %d)",
+      curline, kind == K_A ? "an Array" : "a List", kind == K_A ? "reallocated" : "freed", WIFSIGNALED(st) ? "signal" : "exit status", WIFSIGNALED(st) ? WTERMSIG(st) : WEXITSTATUS(st));
+  }
+}
+
 #define BAD do { O("bad-op"); goto next; } while (0)
 
 int main(int argc, char** argv) {
@@ -569,13 +652,14 @@ int main(int argc, char** argv) {
       started = 1;
       long id, arg = 0; int rf, slot;
       if (nw != 5 || !parse_long(w[1], &id) || id < 0 || id >= MAXOBJ || sh[id].used) BAD;
-      int kind = kind_of(w[2], &rf); if (kind == K_NONE) BAD;
+      int kt, vt;
+      int kind = kind_of(w[2], &rf, &kt, &vt); if (kind == K_NONE) BAD;
       if (!parse_where(w[4], &slot)) BAD;
       int k = 0;
       if (kind == K_P) { if (!parse_long(w[3], &arg) || !(arg == 1 || arg == 2 || arg == 4 || arg == 8)) BAD; k = (int)arg; }
       else if (kind == K_B) { if (!parse_long(w[3], &arg) || !usable(arg) || owned(arg) || ghost[arg] || sh[arg].kind == K_B || sh[arg].rootflag || has_incoming_x((int)arg, slot)) BAD; k = 1; }
-      else { if (strcmp(w[3], "-")) BAD; k = kind == K_M ? 4 : kind == K_R ? 1 : 0; }
-      do_new(id, kind, k, rf, arg, slot);
+      else { if (!parse_types(kind, w[3], &kt, &vt)) BAD; k = kind == K_M ? 4 : kind == K_R ? 1 : 0; }
+      do_new(id, kind, k, rf, arg, slot, kt, vt);
       if (mode_full) O("new %ld live=%s", id, set_text(reach, 1)); else O("new %ld", id);
     } else if (!strcmp(w[0], "pair")) {
       started = 1;
@@ -610,13 +694,13 @@ int main(int argc, char** argv) {
       long id, key; Tok t;
       if (nw != 4 || !parse_long(w[1], &id) || !usable(id) || !parse_long(w[2], &key) || !parse_tok(w[3], &t) || !tok_ok(t)) BAD;
       if (!(t.t == T_OBJ || t.t == T_NIL)) BAD;
-      if (is_refmap(sh[id].kind)) { if (!usable(key) || owned(key)) BAD; } else if (!is_intmap(sh[id].kind)) BAD;
+      if (refkeys(&sh[id])) { if (!usable(key) || owned(key)) BAD; } else if (!is_map(sh[id].kind)) BAD;
       map_set((int)id, key, t); O("ok");
     } else if (!strcmp(w[0], "trem")) {
       long id, key;
       if (nw != 3 || !parse_long(w[1], &id) || !usable(id) || !parse_long(w[2], &key)) BAD;
-      if (!(is_intmap(sh[id].kind) || is_refmap(sh[id].kind)) || map_find(&sh[id], key) < 0) BAD;
-      if (is_refmap(sh[id].kind) && !usable(key)) BAD;
+      if (!is_map(sh[id].kind) || map_find(&sh[id], key) < 0) BAD;
+      if (refkeys(&sh[id]) && !usable(key)) BAD;
       map_rem((int)id, key); O("ok");
     } else if (!strcmp(w[0], "tls")) {
       long k; Tok t; char name[32];
@@ -633,6 +717,44 @@ int main(int argc, char** argv) {
       long j; Tok t;
       if (nw != 3 || !parse_long(w[1], &j) || j < 0 || j >= NROOTS || !parse_tok(w[2], &t) || !tok_ok(t) || !(t.t == T_OBJ || t.t == T_NIL)) BAD;
       roots[j] = tok_word(t); root_tok[j] = t; O("ok");
+    } else if (!strcmp(w[0], "assign")) {
+      long d, sr;
+      if (nw != 3 || !parse_long(w[1], &d) || !parse_long(w[2], &sr) || !usable(d) || !usable(sr) || d == sr) BAD;
+      Sh* od = &sh[d]; Sh* os = &sh[sr];
+      if (is_arr(od->kind) && is_arr(os->kind)) { do_assign((int)d, (int)sr); od->vt = os->vt; shadow_copy_content(od, os); }
+      else if (is_arr(od->kind) && os->kind == K_H) {
+        /* Tuple declares no iter_type: the element type becomes Ref; Ref_Assign stores deref(item) when the item is a Ref / Box */
+        int okk = 1;
+        for (int i = 0; i < os->n; i++) if (os->el[i].t != T_OBJ || !usable(os->el[i].v) || sh[os->el[i].v].kind == K_B) okk = 0;
+        if (!okk) BAD;
+        do_assign((int)d, (int)sr); od->vt = E_R; shadow_copy_content(od, os);
+        for (int i = 0; i < od->n; i++) if (sh[od->el[i].v].kind == K_R) od->el[i] = sh[od->el[i].v].el[0];
+      }
+      else if (is_map(od->kind) && is_map(os->kind)) { do_assign((int)d, (int)sr); od->kt = os->kt; od->vt = os->vt; shadow_copy_content(od, os); }
+      else if (od->kind == K_H && os->kind == K_H) { do_assign((int)d, (int)sr); shadow_copy_content(od, os); }
+      else BAD;
+      if (!content_ok((int)d)) X("sig=gc-retype-content line=%zu what=after assign(%ld, %ld) the target does not hold the source's types and elements", curline, d, sr);
+      O("ok");
+    } else if (!strcmp(w[0], "copy")) {
+      started = 1;
+      long id, sr; int slot;
+      if (nw != 4 || !parse_long(w[1], &id) || id < 0 || id >= MAXOBJ || sh[id].used || !parse_long(w[2], &sr) || !parse_where(w[3], &slot)) BAD;
+      if (!usable(sr) || !(is_arr(sh[sr].kind) || is_map(sh[sr].kind) || sh[sr].kind == K_H)) BAD;
+      do_new_x(id, sh[sr].kind, 0, 0, -1, slot, sh[sr].kt, sh[sr].vt, sr);
+      if (usable(id) && !content_ok((int)id)) X("sig=gc-retype-content line=%zu what=copy(%ld) does not hold the source's types and elements", curline, sr);
+      if (mode_full) O("copy %ld live=%s", id, set_text(reach, 1)); else O("copy %ld", id);
+    } else if (!strcmp(w[0], "clear")) {
+      long id;
+      if (nw != 2 || !parse_long(w[1], &id) || !usable(id) || !(is_arr(sh[id].kind) || is_map(sh[id].kind))) BAD;
+      resize(P((int)id), 0); sh[id].n = 0;
+      O("ok");
+    } else if (!strcmp(w[0], "trunc")) {
+      long id, tn;
+      if (nw != 3 || !parse_long(w[1], &id) || !usable(id) || !parse_long(w[2], &tn)) BAD;
+      if (is_arr(sh[id].kind)) { if (tn < 1 || tn > sh[id].n) BAD; resize(P((int)id), (size_t)tn); sh[id].n = (int)tn; }
+      else if (sh[id].kind == K_T) { if (tn < 1 || tn < sh[id].n || tn > 4096) BAD; resize(P((int)id), (size_t)tn); }
+      else BAD;
+      O("ok");
     } else if (!strcmp(w[0], "del")) {
       long id;
       if (nw != 2 || !parse_long(w[1], &id) || !usable(id) || has_incoming((int)id) || ghost[id]) BAD;
@@ -646,12 +768,13 @@ int main(int argc, char** argv) {
       started = 1;
       long id, cn; int slot;
       if (nw != 5 || !parse_long(w[1], &id) || !parse_long(w[2], &cn) || id < 0 || cn < 1 || id + cn > MAXOBJ || !parse_where(w[4], &slot)) BAD;
-      int kind = chain_kind(w[3]); if (kind == K_NONE) BAD;
+      int kt, vt;
+      int kind = chain_kind(w[3], &kt, &vt); if (kind == K_NONE) BAD;
       if (mode_full && slot < 0) BAD;
       if (slot >= 0 && slot + 1 >= NROOTS) BAD;
       int clash = 0; for (long i = 0; i < cn; i++) if (sh[id + i].used) clash = 1;
       if (clash) BAD;
-      do_chain(id, cn, kind, slot);
+      do_chain(id, cn, kind, slot, kt, vt);
       if (mode_full) O("chain %ld %ld live=%s", id, cn, set_text(reach, 1)); else O("chain %ld %ld", id, cn);
     } else if (!strcmp(w[0], "xcollect")) {
       if (mode_full) BAD;
@@ -676,13 +799,18 @@ int main(int argc, char** argv) {
       O("churn live=%s", set_text(reach, 1));
     } else if (!strcmp(w[0], "deepchild")) {
       long cn; if (nw != 3 || !parse_long(w[1], &cn) || cn < 1 || cn > 50000000) BAD;
-      int kind = chain_kind(w[2]); if (!(kind == K_R || kind == K_P || kind == K_A || kind == K_H)) BAD;
+      int kt, vt;
+      int kind = chain_kind(w[2], &kt, &vt); if (!(kind == K_R || kind == K_P || kind == K_A || kind == K_H)) BAD;
       deep_child(cn, kind);
       O("deepchild %ld", cn);
     } else if (!strcmp(w[0], "danglechild")) {
       if (nw != 2 || !(!strcmp(w[1], "H") || !strcmp(w[1], "M"))) BAD;
       dangle_child(!strcmp(w[1], "H") ? K_H : K_M);
       O("danglechild %s", w[1]);
+    } else if (!strcmp(w[0], "aliaschild")) {
+      if (nw != 2 || !(!strcmp(w[1], "A") || !strcmp(w[1], "L"))) BAD;
+      alias_child(!strcmp(w[1], "A") ? K_A : K_L);
+      O("aliaschild %s", w[1]);
     } else BAD;
     next: ;
   }
